@@ -30,6 +30,7 @@ ASSUMPTIONS = [
     "depth-rescaling invariance is asserted on samples without null-coverage bins",
     "weights of a class whose residuals are symmetric to rounding are not compared across permuted / rescaled variants (biweight_midvariance switches formula on an exact == 0.0 test there: a floating-point tie)",
     "no clustered reference (do_cluster off)",
+    "a class none of whose emitted bins has coverage has no variance estimate: its weights are not asserted",
 ]
 INSERT = 250
 ANTI = ("Antitarget", "Background")
@@ -142,6 +143,13 @@ def build(case):
             tgt.append(row)
         elif case["anti"] == "full" or (case["anti"] == "subset" and rng.random() < 0.6):
             anti.append(row)
+    # precondition (ASSUMPTIONS): fewer than half of a class's bins are null-coverage
+    for rows in (tgt, anti):
+        nulls = [r for r in rows if r["depth"] == 0]
+        if nulls and 2 * len(nulls) >= len(rows):
+            for r in nulls:
+                r["log2"] = case["scale"] + 0.05
+                r["depth"] = float(2 ** r["log2"] * 30)
     if not tgt:
         b = uni[0]
         tgt.append({"chromosome": b["chromosome"], "start": b["start"], "end": b["end"], "gene": b["gene"], "log2": 0.1, "depth": 30.0})
@@ -417,8 +425,11 @@ def check_case(case):
         bad("centred", f"median of the autosomal chromosome medians (non-null bins) is {c!r}")
     # ---- weights
     ws = [g[5] for g in got]
-    if any(not (1e-4 - 1e-15 <= w <= 1.0) for w in ws):
-        bad("weight:range", f"weights range over [{min(ws)!r}, {max(ws)!r}]")
+    # a class none of whose emitted bins has coverage gives no variance estimate: its weights are undefined, not asserted
+    usable = {cls: sum(1 for g, m in zip(got, model) if m["cls"] == cls and not is_null(g[4], m["depth"])) for cls in ("t", "a")}
+    wbad = [w for w, m in zip(ws, model) if usable[m["cls"]] > 0 and not (1e-4 - 1e-15 <= w <= 1.0)]
+    if wbad:
+        bad("weight:range", f"weights outside [0.0001, 1]: {wbad[:4]}")
     for cls in ("t", "a"):
         items = [(m["end"] - m["start"], m["spread"], w) for m, w in zip(model, ws) if m["cls"] == cls]
         by_spread, by_size = {}, {}
